@@ -103,6 +103,24 @@ class DataEncoding(common.AttrComparable, common.XmlObject, metaclass=ABCMeta):
             return adjuster
         return None
 
+    @staticmethod
+    def _whole_bits(size) -> int:
+        """Check that a computed size is a whole number of bits and return it as an int.
+
+        Parameters
+        ----------
+        size : Union[int, float]
+            Size in bits, as computed from a fixed value, a lookup or a referenced parameter.
+
+        Returns
+        -------
+        : int
+            The size in bits
+        """
+        if size != int(size):
+            raise ValueError(f"Computed a size of {size} bits. The size of a data item must be a whole number of bits.")
+        return int(size)
+
     def _calculate_size(self, packet: packets.CCSDSPacket) -> int:
         """Calculate the size of the data item in bits.
 
@@ -284,7 +302,7 @@ class StringDataEncoding(DataEncoding):
                 buflen_bits = self.length_linear_adjuster(buflen_bits)
         else:
             raise ValueError("No raw length specifier found when decoding a string.")
-        return int(buflen_bits)
+        return self._whole_bits(buflen_bits)
 
     def _get_raw_buffer(self, packet: packets.CCSDSPacket) -> bytes:
         """Get the raw string buffer as bytes. This will include any leading size or termination characters.
@@ -926,7 +944,7 @@ class BinaryDataEncoding(DataEncoding):
 
         if self.linear_adjuster is not None:
             len_bits = self.linear_adjuster(len_bits)
-        return int(len_bits)
+        return self._whole_bits(len_bits)
 
     def parse_value(self, packet: packets.CCSDSPacket) -> common.BinaryParameter:
         """Parse a value from packet data, possibly using previously parsed data items to inform parsing.
